@@ -456,6 +456,11 @@ func (r *runner) step(i int, o *sop) (e ev, stop bool) {
 		vs.setProc("flusher")
 		r.store.flushdatas(true)
 		e["a"], e["p"] = "Flush", "flusher"
+	case "cancel":
+		// the admin request "stop the running pass" (HStore.CancelGC), made while the pass is parked
+		vs.setProc("admin")
+		src, dst := r.store.CancelGC(r.sc.Conf.Bucket)
+		e["a"], e["p"], e["src"], e["dst"] = "Cancel", "admin", src, dst
 	case "rotflush":
 		e["a"], e["p"], e["c"] = "RotFlush", "rotf"+strconv.Itoa(o.C), o.C
 		if r.pendingRot[o.C] {
